@@ -265,8 +265,42 @@ def high_order_body(ctx, case):
             break
 
 
+def very_high_cases(tier):
+    ns = [31, 36, 40, 44, 45, 50, 60] if tier == "quick" else [31, 33, 36, 40, 44, 45, 50, 55, 60, 80, 120, 170, 171, 200]
+    out = []
+    for n in ns:
+        for am in sorted({n % 2, n % 2 + 2, n // 3 + ((n - n // 3) % 2), n - 2}):
+            if 0 <= am <= n and (n - am) % 2 == 0:
+                out.append({"n": n, "m": am if (n + am) % 4 else -am, "N": 32})
+    return out
+
+
+def very_high_body(ctx, case):
+    """Hundreds to a few thousand modes are routine for high-order systems.  |R_n^m| <= 1 on the unit disc and the problem is
+    well conditioned, so a mode is judged at 1e-10 of its peak sqrt(2(n+1)) against a cancellation-free (rational) evaluation."""
+    from fractions import Fraction
+    z, _ = Z()
+    n, m, N = case["n"], case["m"], case["N"]
+    ctx.case(case, nontrivial=True, classes=["n_%d_%d" % (n // 20 * 20, n // 20 * 20 + 19)])
+    got = np.asarray(z.zernike_nm(n, m, N), dtype=np.float64)
+    ii = 2 * np.arange(N) + 1 - N                                      # twice the pixel-centre coordinate, in pixels
+    r2i = ii[None, :] ** 2 + ii[:, None] ** 2                          # (2 r N/2)^2 as integers
+    inside = r2i <= N * N
+    uniq = np.unique(r2i[inside])
+    R = dict(zip(uniq.tolist(), noll.radial_exact(n, m, [Fraction(int(u), N * N) for u in uniq])))
+    theta = np.arctan2(ii[:, None].astype(float), ii[None, :].astype(float))
+    ang = 1.0 if m == 0 else (np.cos(abs(m) * theta) if m > 0 else np.sin(abs(m) * theta))
+    norm = math.sqrt(n + 1) if m == 0 else math.sqrt(2 * (n + 1))
+    want = np.zeros((N, N))
+    want[inside] = np.array([R[int(u)] for u in r2i[inside]])
+    want = want * ang * norm
+    ctx.require(got.shape == (N, N) and bool(np.all(np.isfinite(got))), "zernike_nm(n=%d, m=%d): shape / finite" % (n, m))
+    ctx.close(got, want, 1e-10, "zernike_nm(n=%d, m=%d, N=%d) vs cancellation-free evaluation (|R| <= 1, peak %.3g)" % (n, m, N, norm), scale=norm, name="very high order modes")
+
+
 LAWS = [
     plain_law("high_orders", high_order_cases, high_order_body, shards={"quick": 4, "thorough": 8}),
+    plain_law("very_high_orders", very_high_cases, very_high_body, shards={"quick": 4, "thorough": 8}),
     given_law("modes_xl", mode_cases(320, 20), mode_body, {"quick": 0, "thorough": 40}, shards={"quick": 1, "thorough": 16}),
     Law("noll_index", index_run, replay=index_replay, shards={"quick": 16, "thorough": 16}),
     Law("noll_row_boundaries", boundary_run, replay=index_replay, shards={"quick": 4, "thorough": 16}),
